@@ -23,13 +23,14 @@ OBLIGATIONS = ["NiftyVerif.C32." + t for t in (
     "leapfrog_jacobian_det_one", "leapfrog_linear_is_matrix",
     "metropolis_detailed_balance", "metropolis_invariant", "transitionProbability_eq",
     "exp_logaddexp", "logaddexp_weight_total", "merge_weight", "expit_keep", "progressive_sampling_step",
-    "nuts_slot_invariant", "nuts_subtree_count")]
+    "nuts_slot_invariant", "nuts_subtree_count", "leapfrog_volume_preserving", "flip_volume_preserving")]
 RULE = ("leap case = (dimension 1..3, potential ½qᵀAq + Σb q⁴/4 + c·q or a non-polynomial one, diagonal inverse mass, step "
         "size, number of steps, start (q,p)); accrej case = the same plus a PRNG key; slots case = every leaf index n < 2^depth; "
         "non-trivial = non-zero force and momentum (leap), |u−p| outside the 1e-6 margin (accrej), odd n (slots)")
 TRUSTED_BASE = [
     "Lean 4.33 kernel; axioms propext/Classical.choice/Quot.sound only (audited every run)",
-    "chain rule: the Jacobian of kick∘drift∘kick is the product of the shear Jacobians (proved here only for linear forces)",
+    "volume preservation is proved measure-theoretically (leapfrog_volume_preserving, any measurable force); the Jacobian "
+    "statement additionally uses the chain rule for the product of the shear Jacobians (proved here only for linear forces)",
     "momentum resampling p ~ N(0,M) leaves the joint density invariant; detailed balance ⇒ invariance on continuous "
     "state spaces (proved here for finite state spaces)",
     "jax.grad, jax.random (bernoulli(key,p) = uniform(key) < p), XLA, IEEE rounding: executed, not modelled",
